@@ -36,7 +36,9 @@ TINY = {
     (net a (joined (portRef a) (portRef I (instanceRef u1)) (portRef I (instanceRef u2))))
     (net (rename b_0_ "b[0]") (joined (portRef (member b 1)) (portRef O (instanceRef u1))))
     (net (rename b_1_ "b[1]") (joined (portRef (member b 0)) (portRef O (instanceRef u2))))))))
- (design top (cellRef top (libraryRef work))))
+ (design top (cellRef top (libraryRef work)) (property part (string "xc7a35t")))
+ (library late (edifLevel 0) (technology (numberDefinition))
+  (cell PAD (cellType GENERIC) (view netlist (viewType NETLIST) (interface (port P (direction INOUT)))))))
 ''',
     'verilog': '''// tiny
 module leaf(input a, output [1:0] y);
@@ -110,6 +112,7 @@ def sources(fmt, n_files, max_bytes):
     return out
 
 
+APPENDED = ['garbage', ')', '(', '()', '"s"', '0', '(comment "after the end")', '(design d (cellRef c (libraryRef l)))', '"unterminated']
 REF_WORDS = ('cellRef', 'libraryRef', 'portRef', 'instanceRef', 'viewRef')
 
 
@@ -129,6 +132,9 @@ def corrupt(rng, fmt, text, kind=None):
     if kind == 'replace':
         return ''.join(toks[:k] + [toks[rng.choice(idx)]] + toks[k + 1:]), kind, k
     if kind == 'garbage':
+        if fmt == 'edif' and rng.random() < 0.15:
+            # tokens after the last parenthesis of a complete file
+            return text.rstrip() + ' ' + rng.choice(APPENDED), 'append', len(toks)
         return ''.join(toks[:k] + [rng.choice(['zz_nosuch', '(', ')', '"', ';', '.end', 'endmodule', '[', '123', '\\'])] + toks[k + 1:]), kind, k
     if kind == 'cross' and fmt == 'edif':
         cr = cross_refs(toks, idx)
@@ -199,6 +205,8 @@ def exhaustive(fmt, text):
             out.append((''.join(toks[:k]) + t[:cut], 'truncate-in-string', k))
             out.append((''.join(toks[:k] + [t[:cut] + '\u00e9' + t[cut:]] + toks[k + 1:]), 'garbage-in-string', k))
     if fmt == 'edif':
+        for a in APPENDED:
+            out.append((text.rstrip() + ' ' + a, 'append', len(toks)))
         # duplication of a whole parenthesised construct (instance, net, port, cell, property ...)
         for k in idx:
             if toks[k] == '(':
@@ -459,6 +467,12 @@ def run(prop, tier, seed, replay):
                                 fail(tag + '-wf', fmt, ctext, kind, 'returned a netlist that is not well-formed: ' + '; '.join(bad[:2]))
                             if kind.startswith('dangling:') and kind != 'dangling:any' and fmt == 'edif':
                                 fail(tag + '-dangling', fmt, ctext, kind, 'accepted-undeclared-reference after %s' % kind.split(':')[1], must_raise=True)
+                            if kind == 'append' and fmt == 'edif':
+                                fail(tag + '-append', fmt, ctext, kind, 'accepted-trailing-tokens: tokens follow the last parenthesis of the file and it was read as a netlist', must_raise=True)
+                            if kind in ('truncate', 'truncate-in-string') and fmt == 'edif':
+                                # every source ends with its last ")": a text cut before any of its tokens lacks at least that one
+                                # (model side: Props/C15.v C15_edif_truncated_rejected)
+                                fail(tag + '-truncated', fmt, ctext, kind, 'accepted-truncated-text: the file lacks its last tokens and was read as a netlist', must_raise=True)
                         if kind == 'valid' and out != 'returned':
                             fail(tag + '-valid', fmt, ctext, kind, 'valid file rejected: ' + out)
                         if len(samples) < 4 and kind != 'valid' and total % 37 == 0:
@@ -500,7 +514,7 @@ def run(prop, tier, seed, replay):
                         tie_reported += 1
                         rep.violation('edif-tie-%s-%s-%d' % (name, kind.replace(':', '_'), k),
                                       {'kind': 'correspondence-broken', 'format': 'edif', 'corruption': kind, 'what': what,
-                                       'theorems': 'Props/C15.v: C15_edif_wf_or_error (model Fmt/EdifFile.v)', 'text': ctext}, found_input=False)
+                                       'theorems': 'Props/C15.v: C15_edif_wf_or_error, C15_edif_truncated_rejected, C15_edif_trailing_rejected (model Fmt/EdifFile.v)', 'text': ctext}, found_input=False)
         sdn.namespace_manager.default = 'DEFAULT'
         p1 = probe(baseline_texts, tmpdir)
         if p1 != probe0:
@@ -519,7 +533,7 @@ def run(prop, tier, seed, replay):
             'theorems': theorems, 'print_assumptions': proof['assumptions'][-2000:],
             'programs': total, 'disagreements_checked': total,
             'evaluations': total, 'distinct_nontrivial': len(distinct),
-            'rule': 'valid bundled/hand-written files of the three formats and single corruptions of them (truncate at a token, delete/duplicate/replace a token, garbage token, dangling reference); distinct by hash of the text; every case is non-trivial (>= 1 token)',
+            'rule': 'valid bundled/hand-written files of the three formats and single corruptions of them (truncate at a token, delete/duplicate/replace a token, garbage token, tokens appended after the end (EDIF), dangling reference); distinct by hash of the text; every case is non-trivial (>= 1 token)',
             'samples': samples or [{'note': 'none sampled'}],
             'format_corruption_outcome_histogram': dict(sorted(hist.items())),
             'edif_whole_file_tie': tie,
